@@ -455,6 +455,15 @@ func genC19(t *rapid.T) *c19Case {
 		}
 		cs.Chain = append(cs.Chain, f)
 	}
+	// an array-literal parameter is only observable through a filter that hands it on: make it the
+	// replacement value of "default" on an empty input and join it afterwards
+	for i := range cs.Chain {
+		if cs.Chain[i].HasParam && cs.Chain[i].P.K == "arr" {
+			cs.In = c19P{K: "name", S: "nilv"}
+			cs.Chain = []c19F{{Name: "default", HasParam: true, P: c19P{K: "arr"}}, {Name: "join", HasParam: true, P: c19P{K: "str", S: pick(t, "arrsep", []string{"", "+"})}}}
+			break
+		}
+	}
 	switch cs.Pos {
 	case "filter_tag":
 		cs.Body = pick(t, "body", []string{"text", "var", "empty", "emptyvar", "loop"})
